@@ -1,6 +1,7 @@
 package pass1
 
 import (
+	"fmt"
 	"log" // Add log import
 
 	"github.com/HobbyOSs/gosk/internal/ast" // Add ast import
@@ -9,8 +10,18 @@ import (
 // processRET handles the RET instruction.
 // RET instruction (no operands) generates 1 byte of machine code (0xC3).
 func processRET(env *Pass1, operands []ast.Exp) {
+	if len(operands) == 1 {
+		// RET imm16 (C2 iw): 戻ったあとでスタックから取り除くバイト数
+		if num, ok := operands[0].(*ast.NumberExp); ok && num.Value >= 0 && num.Value <= 0xffff {
+			env.LOC += 3
+			env.Client.Emit(fmt.Sprintf("RET %d", num.Value))
+			return
+		}
+	}
 	if len(operands) != 0 {
-		log.Printf("Warning: RET instruction should not have operands, but got %d.", len(operands))
+		// 以前は警告だけ出してオペランドを無視し、ただの RET (C3) を出力していました
+		log.Printf("error: RET takes no operand or one constant in 0..65535, got %d operand(s)", len(operands))
+		return
 	}
 	// RET instruction size is 1 byte.
 	env.LOC += 1
